@@ -1,0 +1,25 @@
+//go:build verif
+
+// Contracts for the watermill verification harness (/verif, tool "gowp"). Comment-only.
+
+package fanin
+
+//@ func NewFanIn$1
+//@   nopanic
+//@   ensures result1 == nil && len(result0) == 1 && result0[0] == msg [passes-the-very-message-through]
+
+//@ func (*Config).Validate
+//@   requires c != nil
+//@   nopanic
+//@   ensures result == nil ==> len(c.SourceTopics) > 0 && c.TargetTopic != "" && (forall i int :: 0 <= i && i < len(c.SourceTopics) ==> c.SourceTopics[i] != "" && c.SourceTopics[i] != c.TargetTopic) [valid-config-has-distinct-non-empty-topics]
+//@   inv loop 1: forall i int :: 0 <= i && i <= rangeindex ==> c.SourceTopics[i] != "" [sources-non-empty-so-far]
+//@   inv loop 2: (forall i int :: 0 <= i && i < len(c.SourceTopics) ==> c.SourceTopics[i] != "") && (forall i int :: 0 <= i && i <= rangeindex ==> c.SourceTopics[i] != c.TargetTopic) && c.TargetTopic != "" && len(c.SourceTopics) > 0 [sources-differ-from-target-so-far]
+
+//@ func NewFanIn
+//@   ensures result1 == nil ==> result0 != nil && ncalls(ADDH) == old(ncalls(ADDH)) + len(config.SourceTopics) [one-handler-per-source-topic]
+//@   ensures result1 == nil ==> (forall j int :: 0 <= j && j < len(config.SourceTopics) ==> sarg(ADDH, 2, old(ncalls(ADDH)) + j) == config.SourceTopics[j] && sarg(ADDH, 3, old(ncalls(ADDH)) + j) == subscriber && sarg(ADDH, 4, old(ncalls(ADDH)) + j) == config.TargetTopic && sarg(ADDH, 5, old(ncalls(ADDH)) + j) == publisher && isclosure(sarg(ADDH, 6, old(ncalls(ADDH)) + j), "fanin.NewFanIn$1")) [each-source-topic-is-relayed-to-the-target-topic-by-the-passthrough-closure]
+//@   ensures result1 != nil ==> result0 == nil
+//@   inv loop 1: router != nil && routerBuilt(router) && ncalls(ADDH) == old(ncalls(ADDH)) + rangeindex + 1 [count]
+//@   inv loop 1: forall j int :: 0 <= j && j <= rangeindex ==> sarg(ADDH, 2, old(ncalls(ADDH)) + j) == config.SourceTopics[j] [topics]
+//@   inv loop 1: forall j int :: 0 <= j && j <= rangeindex ==> sarg(ADDH, 3, old(ncalls(ADDH)) + j) == subscriber && sarg(ADDH, 4, old(ncalls(ADDH)) + j) == config.TargetTopic && sarg(ADDH, 5, old(ncalls(ADDH)) + j) == publisher [wiring]
+//@   inv loop 1: forall j int :: 0 <= j && j <= rangeindex ==> isclosure(sarg(ADDH, 6, old(ncalls(ADDH)) + j), "fanin.NewFanIn$1") [closure]
